@@ -280,7 +280,7 @@ func genCase(t *rapid.T) Case {
 
 var propErr = vk.Register(&vk.Prop[Case]{
 	Property: property, Name: "errorhandler", Gen: genCase, Check: check,
-	Quick: 2500, Thorough: 8000,
+	Quick: 6000, Thorough: 12000,
 })
 
 func TestErrorHandler(t *testing.T) { propErr.Run(t) }
